@@ -46,6 +46,7 @@ USERS = [2, 4, 8, 0]        # shared family: a target, or 0 = get_state user
 NEXT = {1: 2, 2: 4, 4: 8, 8: 8}
 INITIAL_CODE = 0x1b         # AL status code of an error present at the start
 KF_HANG = "C14-shared-walker-waits-for-exact-state"
+MODEL_BOUND = 2
 
 
 def make_poll(ch, k, max_errors):
@@ -182,6 +183,13 @@ def execute_shared(ch, conf, k, max_errors=1, serialise=False):
         ops = [[] for _ in range(n)]
         who = {}
         lock = asyncio.Lock()
+        frame_of = []       # frame number of every entry of t.al_log
+        deliver = m.deliver
+
+        def counting_deliver(i=0):
+            deliver(i)
+            frame_of.extend([m.frames] * (len(t.al_log) - len(frame_of)))
+        m.deliver = counting_deliver
 
         # observation only (feeds the defect model, not the oracle): which
         # user's task issued which AL access
@@ -207,11 +215,12 @@ def execute_shared(ch, conf, k, max_errors=1, serialise=False):
                 ends[i] = len(t.al_log)
             return cb
 
-        def start_due(m_=None):
+        def start_due(idle=None):
             did = False
             for i, (target, delay) in enumerate(users):
-                if futs[i] is None and (m.frames >= delay
-                                        or not m.transport.inflight):
+                if futs[i] is None and (
+                        m.frames >= delay
+                        or idle is not None and not m.transport.inflight):
                     marks[i] = len(t.al_log)
                     if not target:
                         co = term.get_state()
@@ -252,7 +261,7 @@ def execute_shared(ch, conf, k, max_errors=1, serialise=False):
         log = list(t.al_log)
         pending = t.al_requested
         loop.shutdown()
-    return dict(log=log, users=out, requested=pending)
+    return dict(log=log, users=out, requested=pending, frames=frame_of)
 
 
 def status_codes(conf, log):
@@ -278,16 +287,15 @@ def judge_shared(conf, obs):
     log = obs["log"]
     bad = []
     # ---- the terminal as a whole
-    hi = None           # highest state reported since the last acknowledge
+    frames = obs["frames"]
+    n = len(users)
     errs = acks = 0
     for i, (kind, v) in enumerate(log):
         if kind == "status":
-            s = v & 0xf
-            hi = s if hi is None else max(hi, s)
             if v & 0x10:
                 errs += 1
             continue
-        if hi is None:
+        if not any(e[0] == "status" for e in log[:i]):
             bad.append((None, "first action: AL status read", (kind, v),
                         "AL control write before any AL status read"))
             break
@@ -298,7 +306,6 @@ def judge_shared(conf, obs):
                             [i, (kind, v)],
                             "acknowledge without a reported error"))
                 break
-            hi = 1
             continue
         if v not in (2, 4, 8):
             bad.append((None, "request PRE-OP, SAFE-OP or OP", [i, (kind, v)],
@@ -309,9 +316,17 @@ def judge_shared(conf, obs):
                         "reported error not acknowledged with INIT|ack "
                         "first"))
             break
+        # the writer read the status at most n frames ago (n users, each
+        # with one datagram under way): some read in that window must have
+        # reported the state below v (or a higher one) without error
+        recent = [log[j][1] for j in range(i)
+                  if log[j][0] == "status" and frames[j] >= frames[i] - n
+                  and not log[j][1] & 0x10]
+        hi = max([r & 0xf for r in recent] or [1])
         if v > NEXT[hi]:
             bad.append((None, "at most %d (one step above the highest state "
-                        "reported since the last acknowledge)" % NEXT[hi],
+                        "reported without error in the last %d frames)"
+                        % (NEXT[hi], n),
                         [i, (kind, v)], "wrong request (a state is skipped / "
                         "requested before the previous one was reported)"))
             break
@@ -343,13 +358,11 @@ def judge_shared(conf, obs):
                             "reported error"))
         elif out[0] == "return":
             seen = [[v & 0xf, bool(v & 0x10), codes[i]] for i, v in reads]
-            if u["result"] is not None and u["result"] not in seen:
+            if not target and u["result"] not in seen:
                 bad.append((no, "one of the status reads of its life time: "
                             "%r" % seen, u["result"],
-                            "returned state/error/code was never reported"))
-            elif not target and u["result"] is None:
-                bad.append((no, "state, error flag, code", None,
-                            "get_state returned nothing"))
+                            "get_state: returned state/error/code was never "
+                            "reported"))
             if target and not reached:
                 bad.append((no, "a status read reporting a state >= %d "
                             "without error (after the last acknowledge) "
@@ -395,7 +408,7 @@ def hang_model(obs, no):
     return total > mine
 
 
-def explore_shared(conf, k, errors, res, serialise=False):
+def explore_shared(conf, k, errors, res, serialise=False, bound=99):
     found = []
 
     def on_exec(ch, obs):
@@ -426,18 +439,22 @@ def explore_shared(conf, k, errors, res, serialise=False):
                           serialise=serialise, user=no, log=obs["log"]),
                 exp=exp, seen=seen, what=what, kf=kf))
     explore.dfs(lambda ch: execute_shared(ch, conf, k, errors, serialise),
-                99, on_exec)
+                bound, on_exec)
     return found
 
 
 def work(item, res):
     k = work.k
     if item[0] == "shared":
-        conf = item[1]
-        found = explore_shared(conf, k, work.errors, res)
+        _, conf, k, errors = item
+        found = explore_shared(conf, k, errors, res)
         if any(f["kf"] for f in found):
-            # the failure must vanish under the one modelled deviation
-            again = explore_shared(conf, k, work.errors, res, serialise=True)
+            # the failure must vanish under the one modelled deviation:
+            # with the walks one after the other the configuration has to
+            # be clean (all behaviours with <= MODEL_BOUND non-default poll
+            # answers; the serialised trees are three times the size)
+            again = explore_shared(conf, k, errors, res, serialise=True,
+                                   bound=MODEL_BOUND)
             if again:
                 for f in found:
                     f["kf"] = None
@@ -446,8 +463,8 @@ def work(item, res):
             res.violation(f["case"], f["exp"], f["seen"], kf=f["kf"],
                           sig=core.digest([f["what"], f["kf"]]),
                           note=f["what"])
-        a = execute_shared(explore.Chooser(()), conf, k)
-        b = execute_shared(explore.Chooser(()), conf, k)
+        a = execute_shared(explore.Chooser((1,)), conf, k)
+        b = execute_shared(explore.Chooser((1,)), conf, k)
         if a != b:
             raise core.Internal("non-deterministic execution")
         return
@@ -474,24 +491,31 @@ def work(item, res):
 
 
 def shared_items(ctx):
-    """(start, err, ((target, delay), ...)); the first user has delay 0"""
-    d2 = range(0, 7) if ctx.quick else range(0, 13)
-    d3 = (0, 1, 3) if ctx.quick else (0, 1, 2, 3, 5)
-    extra = []
+    """('shared', (start, err, ((target, delay), ...)), k, errors); the
+    first user has delay 0"""
+    k = 2 if ctx.quick else 3
+    d2 = list(range(0, 7) if ctx.quick else range(0, 13))
+    d3 = [(0, 0), (1, 2)] if ctx.quick else \
+        [(0, 0), (0, 1), (1, 0), (1, 1), (1, 2), (2, 1), (0, 4), (2, 4)]
     if ctx.seed:
-        extra = [7 + ctx.seed % 5] if ctx.quick else [13 + ctx.seed % 5]
+        d2.append((7 if ctx.quick else 13) + ctx.seed % 5)
+        d3.append((ctx.seed % 3, 3 + ctx.seed % 4))
     items = []
     for s in STATES:
         for e in (False, True):
             for a, b in itertools.product(USERS, repeat=2):
-                for d in list(d2) + extra:
-                    items.append(("shared", (s, e, ((a, 0), (b, d)))))
+                for d in d2:
+                    items.append(("shared", (s, e, ((a, 0), (b, d))), k,
+                                  1 if ctx.quick else 2))
             for a, b, c in itertools.product(USERS, repeat=3):
                 if not a and not b and not c:
                     continue
-                for db, dc in itertools.product(d3, repeat=2):
+                for db, dc in d3:
+                    if ctx.quick and (db, dc) != (0, 0) \
+                            and not (a and b and c):
+                        continue    # quick: get_state users start together
                     items.append(("shared",
-                                  (s, e, ((a, 0), (b, db), (c, dc)))))
+                                  (s, e, ((a, 0), (b, db), (c, dc))), k, 1))
     return items
 
 
@@ -505,6 +529,7 @@ def run(ctx):
     res.cov["states"] = len(res.nontrivial)
     res.cov["traces_validated_against_impl"] = res.cov.get("evaluations", 0)
     res.cov["k"] = work.k
+    res.cov["k_shared"] = 2 if ctx.quick else 3
     res.cov["configurations"] = len(items)
     res.sample(dict(conf=[1, True, 8], behaviour="ack, then PRE-OP after one "
                     "'stay', SAFE-OP at once, error while going to OP"))
